@@ -11,7 +11,8 @@ CLAIM = {
     "technique": "Lean 4 theorems about a model of single_entry::Txn::to_double_entry (shape, signs, rates, assertion, number "
                  "representation) and a decidable CleanText class + differential correspondence against the real Txn builder / "
                  "to_double_entry, and a read-back oracle (real importers -> real printer -> real parser -> tree comparison) over "
-                 "hostile statement text",
+                 "hostile statement text; for the CSV importer the chain is closed from the TEXT of the number cells (model of "
+                 "str_to_comma_decimal plugged into the importer model) with its own correspondence stream and a written-number oracle",
     "text": ("PARTIAL. Proved (for every record, every account, every precision table): C15_tree — the transaction built for a "
              "statement record has exactly the documented shape (date, effective date only when different, `*`, code, payee, "
              "comments in order, the imported account's posting first for a credit and last for a debit with the balance assertion "
@@ -71,11 +72,37 @@ CLAIM = {
              "overflow and 28-place rounding, blanks, case, trailing white space): real viseca::parser::Parser and real import::import vs "
              "the model (entries with line numbers, error kind + message head + line number, transaction trees), sign facts checked on the "
              "real trees, and the model's canonical text of every canonical entry list fed back to the REAL parser (round-trip theorem on "
-             "the real code)."),
+             "the real code). "
+             "CSV NUMBER CELLS (Lemmas/ImportCsvCellsUse.lean, last sections of Props/C15.lean): the importer model's decoder parameter is "
+             "instantiated with the model of okane's own str_to_comma_decimal (Cells.cellEnv; C16_cell_exact / C16_cell_value characterise it "
+             "exactly) and the numbers are carried from the TEXT of the cells to the text read back, for every date decoder, regex engine, "
+             "configuration, field map, record and precision table <= 28: cellDecimal_written / cellDecimal_accepts_iff (the decoder accepts "
+             "exactly the cells that write a number = optional minus, well-formed literal in range and commodity text in either order; it returns "
+             "that number digit for digit: unsigned literal times (-1)^(minus signs written), the decimal places written, always below 2^96 / "
+             "scale <= 28); readRow_cells / amount_written / AmountWritten.value / csvRow_numbers (every number csv::import puts into the Txn — "
+             "amount under the credit/debit and asset/liability sign rule, balance, the one non-zero charge, the rate, the extracted secondary "
+             "amount — is the number written in the cell the field map points to, columns and rendered templates alike); csvRow_inRange / "
+             "csvRow_cleanText (CleanText of a CSV row is a condition on its TEXT only: CleanText = CleanWords; the number conjuncts hold for every "
+             "decoded cell; only a COMPUTED secondary amount keeps a range hypothesis, shown necessary in the model by "
+             "C15_csv_computed_range_needed); C15_csv_row_postings (the transaction of the row is read back with: on the imported account — first "
+             "posting for a non-negative amount, last otherwise — the number written in the amount cell under the sign rule, PADDED: same value, "
+             "exactly max(places written, configured precision) places whenever the padded mantissa fits 96 bits, sign kept; its balance "
+             "assertion = the balance cell's number padded; the charge posting = the charge cell's number padded with the operator's Payee tag; the "
+             "counter-posting = the negated amount, or with a conversion the secondary-amount cell's magnitude under the opposite sign in the "
+             "secondary commodity; `@ rate` = the rate cell's number padded, on the posting whose commodity it prices); C15_csv_row_readback / "
+             "C15_csv_amount_readback (headline: the printed posting on the imported account reads back — parser model — as the number WRITTEN in "
+             "the amount cell) / C15_csv_readback_ledger (whole statement: one transaction per dated record, each the transaction of one record). "
+             "Stream csv-cells: statements whose number cells carry currency signs, commodity codes before / after the number, thousands "
+             "separators, blanks and tabs, up to three minus signs, negating and composing templates, labels / indices, delimiters, skipped head "
+             "lines, both account types and value layouts, conversions; the importer MODEL run on the cells the csv crate yields — numbers and "
+             "templates decoded by the model from their TEXT, no decoded number leaves the harness — must build the same trees as the real "
+             "importer; and, independent of the model, the written-number oracle on the real importer + printer + parser: the posting amounts "
+             "read back equal the numbers written in the cells (sign rules, padding to the precision), and a cell that writes no number makes the "
+             "import fail."),
     "note": ("the read-back theorems are about the Lean models of the printer and the parser (validated against the real code by the "
              "C05 / C07 / C19 correspondence checks), tied to the real importer output by this check's oracle; csv / quick-xml / regex / chrono decoding "
-             "are outside the model (the model starts from the decoded record); rust_decimal arithmetic outside 96 bits / scale 28 is "
-             "not modelled."),
+             "are outside the model (the model starts from the decoded record; for CSV from the cells the csv crate yields: number cells and "
+             "templates are decoded by the model); rust_decimal arithmetic outside 96 bits / scale 28 is not modelled."),
     "design_ref": "DESIGN.md section 6, C15; finding F15 in section 7",
 }
 
@@ -105,6 +132,12 @@ THEOREMS = [
     "Okane.Import.Viseca.roundtrip_needs_payee_condition", "Okane.Import.Viseca.roundtrip_needs_year_window",
     "Okane.Import.Viseca.roundtrip_needs_sign_condition", "Okane.Import.Viseca.roundtrip_needs_category_condition",
     "Okane.Import.Viseca.F38_regression",
+    # the CSV importer from the text of its number cells (Lemmas/ImportCsvCellsUse.lean, last sections of Props/C15.lean)
+    "Okane.Import.cellDecimal_written", "Okane.Import.cellDecimal_accepts_iff", "Okane.Import.readRow_cells", "Okane.Import.amount_written",
+    "Okane.Import.AmountWritten.value", "Okane.Import.baseTxn_full", "Okane.Import.buildTxn_spec", "Okane.Import.csvRow_numbers",
+    "Okane.Import.cleanText_iff", "Okane.Import.csvRow_inRange", "Okane.Import.csvRow_cleanText", "Okane.Import.csvImport_mem",
+    "Okane.Import.C15_padded", "Okane.Import.C15_readback_posts", "Okane.Import.C15_csv_row_postings", "Okane.Import.C15_csv_row_readback",
+    "Okane.Import.C15_csv_amount_readback", "Okane.Import.C15_csv_readback_ledger", "Okane.Import.C15_csv_computed_range_needed",
 ]
 
 # ------------------------------------------------------------------------------------------------
@@ -1173,6 +1206,347 @@ def run_viseca_text_stream(chk, n):
 
 
 # ------------------------------------------------------------------------------------------------
+# csv-cells: the CSV importer from the TEXT of its cells.  (1) the importer MODEL run by `drv c15 csv` on the cells the `csv` crate
+# yields — number cells decoded by the model of `str_to_comma_decimal`, templates parsed by the model of `Template::from_str`; no
+# decoded number leaves the harness — against the real importer (trees); (2) the statement of C15_csv_row_postings /
+# C15_csv_amount_readback as an oracle on the REAL code, independent of the model: what the real parser reads back from the text the
+# real importer printed carries, on the imported account, the number WRITTEN in the amount cell (literal value, one sign flip per
+# minus sign written, account-type / credit-debit sign rule), padded to max(places written, configured precision); same for the
+# balance, charge, rate and (extracted) secondary-amount cells.
+
+CELL_COMMODITY_TEXTS = ["$", "€", "USD", "CHF", "JPY", "円", "Ab", "£"]
+BAD_NUMBER_CELLS = ["1,23.4", "abc", "5.00.1", "12 34", "1e5", "$", "1,,000", ",100", "100,", ".", "-", "--",
+                    "79228162514264337593543950336", "0.00000000000000000000000000001", "5.00 US D", "1.000,50"]
+
+
+def num_cell(rng, units, scale, fancy, allow_lead=True):
+    """a number cell writing units/10^scale with `k` minus signs: (text, k, places).  Layouts of `unary_amount` (`CellForm` in the Lean
+    model): an optional leading minus, then the number token (its own optional minus directly in front of the digits) and a commodity
+    text in either order, optional blanks after each.  Every such text is a number cell, and so is `-` in front of one that has no
+    leading minus of its own (`allow_lead=False`: what a negating template `-{n}` needs)."""
+    ip, fp = divmod(units, 10 ** scale) if scale else (units, 0)
+    tok = "{:,}".format(ip) if fancy and rng.random() < 0.5 else str(ip)
+    if scale:
+        tok += "." + str(fp).rjust(scale, "0")
+    if not fancy:
+        return tok, 0, scale
+    k = 0
+    if rng.random() < 0.2:
+        tok = "-" + tok
+        k += 1
+    com = rng.choice(CELL_COMMODITY_TEXTS) if rng.random() < 0.55 else ""
+    sp = lambda: rng.choice(["", "", " ", "  ", "\t"])
+    if rng.random() < 0.5:
+        body = tok + sp() + com + sp()
+    else:
+        body = com + sp() + tok + sp()
+    if allow_lead and rng.random() < 0.2:
+        body = "-" + body
+        k += 1
+    return body, k, scale
+
+
+def signed(units, scale, k):
+    return Fraction(-units if k % 2 else units, 10 ** scale)
+
+
+def gen_csvcells_case(rng, idx):
+    cols = ["date", "payee"]
+    use_cd = rng.random() < 0.3
+    cols += ["credit", "debit"] if use_cd else ["amount"]
+    opt_cols = [c for c in ["note", "category", "balance", "commodity", "charge"] if rng.random() < 0.5]
+    conv = rng.random() < 0.35
+    if conv:
+        opt_cols += ["rate", "secondary_amount", "secondary_commodity"]
+    cols += opt_cols
+    rng.shuffle(cols)
+    index = {c: i for i, c in enumerate(cols, 1)}
+    header = {c: rng.choice([c, c.upper(), "col%d" % index[c]]) for c in cols}
+    fields = {}
+    for c in cols:
+        fields[c] = index[c] if rng.random() < 0.7 else header[c]
+    # templates (parsed by the model from their text): a negating amount, a composed payee
+    amount_tpl = (not use_cd) and rng.random() < 0.15
+    if amount_tpl:
+        fields["amount"] = {"template": rng.choice(["-{%d}", "-{%d} ", "{%d}"]) % index["amount"]}
+    payee_tpl = None
+    if rng.random() < 0.2:
+        payee_tpl = rng.choice(["{%(p)d} [{%(d)d}]", "{%(p)d}", "x {%(p)d} y", "{%(d)d}/{%(p)d}", "{0%(p)d}"]) % {"p": index["payee"], "d": index["date"]}
+        if "category" in index and isinstance(fields["category"], int) and rng.random() < 0.5:
+            payee_tpl = "{category}: {%d}" % index["payee"]
+        fields["payee"] = {"template": payee_tpl}
+    primary = rng.choice(["USD", "CHF", "EUR", "JPY"])
+    others = [c for c in ["USD", "CHF", "EUR", "JPY", "XAU", "GBP"] if c != primary]
+    prec = {c: rng.randint(0, 4) for c in rng.sample(["USD", "CHF", "EUR", "JPY", "XAU", "GBP"], rng.randint(0, 4))}
+    account_type = rng.choice(["asset", "liability"])
+    conv_spec = None
+    if conv:
+        conv_spec = {"amount": rng.choice(["extract", "extract", "compute"]), "rate": rng.choice(["price_of_secondary", "price_of_primary"])}
+        if conv_spec["amount"] == "compute":
+            conv_spec["rate"] = "price_of_primary"        # products are exact; quotients are C16's subject
+        if rng.random() < 0.3:
+            conv_spec["commodity"] = rng.choice(others)
+    delimiter = rng.choice([",", ",", ";", "\t", "|"])
+    skip = rng.choice([0, 0, 0, 1, 2])
+    fmt = {"date": "%Y-%m-%d", "fields": fields, "commodity": {c: {"precision": p} for c, p in prec.items()},
+           "row_order": rng.choice(["old_to_new", "new_to_old"])}
+    if delimiter != "," or rng.random() < 0.2:
+        fmt["delimiter"] = delimiter
+    if skip:
+        fmt["skip"] = {"head": skip}
+    doc = {"path": "stmt", "encoding": "UTF-8", "account": rng.choice(["Assets:Bank", "Liabilities:Card", "Assets:銀行:Main"]),
+           "account_type": account_type,
+           "commodity": primary if conv_spec is None else {"primary": primary, "conversion": conv_spec},
+           "operator": "The Bank", "format": fmt,
+           "rewrite": [{"matcher": {"payee": "^K(?P<code>[0-9]+) (?P<payee>.*)$"}},
+                       {"matcher": {"payee": "migros"}, "account": "Expenses:Grocery"},
+                       {"matcher": {"payee": "shop"}, "account": "Expenses:Shop", "pending": True},
+                       {"matcher": [{"category": "^fee"}, {"payee": "bank"}], "account": "Expenses:Fees"}]}
+    fancy = rng.random() < 0.75
+    bad_at = (rng.randrange(1, 7), rng.choice(["amount", "balance", "charge", "rate", "secondary_amount"])) if rng.random() < 0.08 else None
+    rows, expect, hays = [], [], []
+    refused = False
+    n = rng.randint(1, 6)
+    scale = rng.choice([0, 2, 2, 3, 4])
+    for r in range(1, n + 1):
+        date = "%04d-%02d-%02d" % (rng.randint(1990, 2035), rng.randint(1, 12), rng.randint(1, 28))
+        if rng.random() < 0.06:
+            date = ""                                     # a row without date is skipped
+        payee = rng.choice(["Migros", "shop", "Coop", "K4711 Migros AG", "the bank", "Café 山田", "x", "SHOP 24", "K12 shop"])
+        row = {"date": date, "payee": payee, "note": rng.choice(["", "ref 42", "thanks", "  ", "No.5"]),
+               "category": rng.choice(["", "fee", "Fees and charges", "food", "FEE 1"])}
+        exp = {"dated": date != ""}
+        units = rng.randint(0, 10 ** rng.choice([2, 4, 6, 9])) if rng.random() < 0.95 else 0
+        cell, k, places = num_cell(rng, units, scale, fancy)
+        if use_cd:
+            if rng.random() < 0.5:
+                row["credit"], row["debit"] = cell, (num_cell(rng, rng.randint(1, 999), scale, False)[0] if rng.random() < 0.15 else "")
+                exp["amount"] = (signed(units, scale, k), places)
+            else:
+                row["credit"], row["debit"] = "", cell
+                exp["amount"] = (-signed(units, scale, k), places)
+        else:
+            kk = k
+            if amount_tpl and fields["amount"]["template"].startswith("-"):
+                # `-` in front of the cell: one more minus sign; the cell itself then must not start with a leading minus of its own
+                # followed by a commodity text (`--$1` is no number), so it is generated without one
+                cell, kk, places = num_cell(rng, units, scale, fancy, allow_lead=False)
+                kk += 1
+            row["amount"] = cell
+            v = signed(units, scale, kk)
+            exp["amount"] = (v if account_type == "asset" else -v, places)
+        u = rng.randint(0, 10 ** 8)
+        c, k, pl = num_cell(rng, u, scale, fancy)
+        row["balance"] = c if rng.random() < 0.75 else ""
+        exp["balance"] = (signed(u, scale, k), pl) if row["balance"] and "balance" in index else None
+        u = rng.randint(0, 500) if rng.random() < 0.8 else 0
+        c, k, pl = num_cell(rng, u, scale, fancy)
+        row["charge"] = c if rng.random() < 0.6 else ""
+        exp["charge"] = (signed(u, scale, k), pl) if row["charge"] and u != 0 and "charge" in index else None
+        row["commodity"] = rng.choice([primary] + others[:2])
+        exp["commodity"] = row["commodity"] if "commodity" in index else primary
+        rate_u, rate_s = rng.choice([(15, 1), (11025, 2), (91, 4), (2, 0), (96, 2), (11767, 4), (8, 1)])
+        c, k, pl = num_cell(rng, rate_u, rate_s, False)
+        row["rate"] = c if rng.random() < 0.8 else ""
+        u = rng.randint(1, 10 ** 6)
+        sc_cell, sk, spl = num_cell(rng, u, 2, fancy)
+        row["secondary_amount"] = sc_cell if rng.random() < 0.9 else ""
+        sc = rng.choice([x for x in others if x != exp["commodity"]])
+        row["secondary_commodity"] = sc
+        exp["conv"] = None
+        if conv and row["rate"] and row["secondary_amount"]:
+            exp["conv"] = {"mode": conv_spec["amount"], "rate_mode": conv_spec["rate"], "rate": (Fraction(rate_u, 10 ** rate_s), rate_s),
+                           "sec": (Fraction(u, 100), spl), "sc": conv_spec.get("commodity", sc)}
+            if exp["conv"]["sc"] == exp["commodity"]:
+                exp["same_commodity"] = True
+        if bad_at is not None and bad_at[0] == r and (bad_at[1] in index or (bad_at[1] == "amount" and use_cd)):
+            key = bad_at[1] if bad_at[1] in row else "credit"
+            row[key] = rng.choice(BAD_NUMBER_CELLS)
+            if key == "credit":
+                pass
+            if date != "":
+                refused = True
+        rows.append(row)
+        expect.append(exp)
+        if payee_tpl is not None:
+            rendered = payee_tpl
+            for name, col in (("{category}", "category"),):
+                rendered = rendered.replace(name, row.get(col, ""))
+            for c2 in cols:
+                rendered = rendered.replace("{%d}" % index[c2], row[c2]).replace("{0%d}" % index[c2], row[c2])
+            hays.append(rendered)
+    buf = io.StringIO()
+    for i in range(skip):
+        buf.write(rng.choice(["exported by the bank", "", "a;b,c", "# 2024"]) + "\n")
+    w = csv.writer(buf, lineterminator="\n", delimiter=delimiter)
+    w.writerow([header[c] for c in cols])
+    for row in rows:
+        w.writerow([row[c] for c in cols])
+    return {"doc": doc, "text": buf.getvalue().encode("utf-8"), "expect": expect, "refused": refused, "prec": prec, "hays": hays,
+            "account": doc["account"], "n2o": fmt["row_order"] == "new_to_old", "fancy": fancy, "templates": amount_tpl or payee_tpl is not None,
+            "operator": "The Bank"}
+
+
+def written_oracle(c, reread):
+    """C15_csv_row_postings on the real code: `reread` = the transactions the real parser read back from the real importer's output"""
+    exps = [e for e in c["expect"] if e["dated"]]
+    if c["n2o"]:
+        exps = exps[::-1]
+    if len(reread) != len(exps):
+        return "%d transactions read back for %d dated records" % (len(reread), len(exps))
+    prec = c["prec"]
+
+    def num(a):
+        n, m, sc = dec_of(a[1])
+        return Fraction(-m if n else m, 10 ** sc), sc, dec(a[2])
+
+    def want(where, a, value, places, commodity):
+        v, sc, com = num(a)
+        if com != commodity:
+            return "%s: commodity %r, the row's is %r" % (where, com, commodity)
+        if v != value:
+            return "%s: reads back as %s, the cell writes %s" % (where, v, value)
+        if sc != max(places, prec.get(commodity, 0)):
+            return "%s: %d decimal places read back, %d written, precision %s" % (where, sc, places, prec.get(commodity))
+        return None
+    for i, (e, tr) in enumerate(zip(exps, reread)):
+        if tr[0] != "txn":
+            return "entry %d read back is not a transaction" % i
+        posts = tr[6]
+        mine = [p for p in posts if dec(p[1]) == c["account"]]
+        if len(mine) != 1:
+            return "txn %d: %d postings on the imported account" % (i, len(mine))
+        p = mine[0]
+        value, places = e["amount"]
+        if value != 0 and (posts[-1] if value < 0 else posts[0]) is not p:
+            return "txn %d: the imported account's posting is not %s" % (i, "last for a debit" if value < 0 else "first for a credit")
+        bad = want("txn %d amount" % i, p[3][0][1], value, places, e["commodity"])
+        if bad:
+            return bad
+        if (e["balance"] is None) != (p[4] == []):
+            return "txn %d: balance assertion %s, balance cell %s" % (i, "present" if p[4] else "absent", "empty / no column" if e["balance"] is None else "written")
+        if e["balance"] is not None:
+            bad = want("txn %d balance" % i, p[4][0], e["balance"][0], e["balance"][1], e["commodity"])
+            if bad:
+                return bad
+        charges = [q for q in posts if dec(q[1]) == "Expenses:Commissions"]
+        if (e["charge"] is None) != (charges == []):
+            return "txn %d: %d charge postings, charge cell %s" % (i, len(charges), "empty / zero / no column" if e["charge"] is None else "written")
+        if e["charge"] is not None:
+            q = charges[0]
+            bad = want("txn %d charge" % i, q[3][0][1], e["charge"][0], e["charge"][1], e["commodity"])
+            if bad:
+                return bad
+            if q[5] != [["kv", "Payee", ["text", enc(c["operator"])]]]:
+                return "txn %d: charge posting without the operator's Payee tag" % i
+        counter = posts[0] if p is posts[-1] else posts[-1]
+        cv = e["conv"]
+        if cv is None:
+            bad = want("txn %d counter amount" % i, counter[3][0][1], -value, places, e["commodity"])
+            if bad:
+                return bad
+            if counter[3][0][2] or p[3][0][2]:
+                return "txn %d: `@ rate` on a row without conversion" % i
+        else:
+            sv, sc_, scom = num(counter[3][0][1])
+            if scom != cv["sc"]:
+                return "txn %d: counter commodity %r, secondary commodity %r" % (i, scom, cv["sc"])
+            if cv["mode"] == "extract":
+                mag, spl = cv["sec"]
+                wantv = -abs(mag) if value > 0 or (value == 0 and p is posts[0]) else abs(mag)
+                if abs(sv) != abs(mag) or (sv != 0 and value != 0 and (sv > 0) == (value > 0)):
+                    return "txn %d: counter amount %s, the secondary-amount cell writes %s (sign opposite to the amount %s)" % (i, sv, mag, value)
+                if sc_ != max(spl, prec.get(scom, 0)):
+                    return "txn %d: counter amount with %d places, %d written, precision %s" % (i, sc_, spl, prec.get(scom))
+            rated, other, rcom = (p, counter, cv["sc"]) if cv["rate_mode"] == "price_of_primary" else (counter, p, e["commodity"])
+            if other[3][0][2]:
+                return "txn %d: `@ rate` on the posting whose commodity it does not price" % i
+            if not rated[3][0][2] or rated[3][0][2][0][0] != "rate":
+                return "txn %d: no `@ rate` on the posting whose commodity the rate prices" % i
+            bad = want("txn %d rate" % i, rated[3][0][2][0][1], cv["rate"][0], cv["rate"][1], rcom)
+            if bad:
+                return bad
+    return None
+
+
+def run_csv_cells_stream(chk, n):
+    cases = [gen_csvcells_case(chk.rng, i) for i in range(n)]
+    hx_lines = [" ".join([enc("stmt.csv"), enc(docs_yaml([c["doc"]])), enc(c["text"])] + [enc(h) for h in c["hays"]]) for c in cases]
+    impl = run_sharded(HX, ["c15", "csv"], hx_lines)
+    chk.streams["csv-cells"] = len(cases)
+    parsed, drv_lines, idx = [], [], []
+    for a in impl:
+        t = sx_parse(a) if a.startswith("(ok ") else None
+        parsed.append(t)
+        if t is None:
+            continue
+        cells = sx_find(t, "cells")[1]
+        if cells[0] != "ok":
+            continue
+        drv_lines.append("(case %s %s %s %s %s)" % (sx_str(sx_find(t, "cfg")[1]), sx_str(sx_find(t, "pats")), sx_str(sx_find(t, "table")),
+                                                    sx_str(["cells"] + cells[1:]), sx_str(sx_find(t, "dates"))))
+        idx.append(len(parsed) - 1)
+    model = dict(zip(idx, run_sharded(DRV, ["c15", "csv"], drv_lines)))
+    for k, (c, line, a, t) in enumerate(zip(cases, hx_lines, impl, parsed)):
+        replay = {"stream": "c15 csv-cells", "config": docs_yaml([c["doc"]]), "statement": c["text"].decode("utf-8"),
+                  "rerun": "echo '%s' | /verif/work/target/debug/hx c15 csv" % line}
+        if a.startswith("(panic"):
+            chk.case(line)
+            chk.oracle_failures += 1
+            chk.violation("the CSV importer panicked on a statement: %s" % dec(a[7:-1])[:200], replay)
+            continue
+        if t is None:
+            chk.case(line, nontrivial=False)
+            chk.count("csv-cells:config-refused")
+            continue
+        I = sx_find(t, "import")[1]
+        D = sx_find(t, "dump")[1]
+        chk.case(line, nontrivial=I[0] == "ok" and len(I) > 1)
+        chk.traces += 1
+        chk.count("csv-cells:%s" % ("imported" if I[0] == "ok" else "refused:" + I[2]))
+        if c["fancy"]:
+            chk.count("csv-cells:cells-with-commodity-text-or-minus-signs")
+        if c["templates"]:
+            chk.count("csv-cells:with-templates")
+        # ---- oracles on the real code, independent of the model
+        bad = None
+        same = any(e.get("same_commodity") and e["dated"] for e in c["expect"])
+        if c["refused"]:
+            if I[0] == "ok":
+                bad = "a number cell that writes no number was accepted"
+        elif I[0] != "ok":
+            if not same:
+                bad = "a statement whose number cells all write numbers was refused: %s" % I[2]
+        else:
+            diffs, _ = readback(D, c["prec"], None)
+            if diffs:
+                bad = "the printed text does not read back as the transactions built (clean text): %s" % diffs[0]
+            else:
+                bad = written_oracle(c, sx_find(D, "reparse")[1][1:])
+        if bad is not None:
+            chk.oracle_failures += 1
+            chk.violation("CSV import, number cells: " + bad, dict(replay, impl=a[:3000]))
+            continue
+        # ---- the model (numbers and templates decoded from their text) vs the implementation
+        b = model.get(k)
+        if b is None:
+            chk.count("csv-cells:cells-not-decodable-by-the-csv-crate")
+            continue
+        if b.startswith("(table-incomplete"):
+            chk.count("csv-cells:regex-table-incomplete")
+            continue
+        tb = sx_parse(b) if b.startswith("(ok ") else None
+        mi = sx_find(tb, "import")[1] if tb else None
+        if mi != I:
+            chk.disagreements += 1
+            chk.violation("model (cells decoded from their text) and implementation of the CSV importer disagree",
+                          dict(replay, impl_import=sx_str(I)[:3000], model_import=sx_str(mi)[:3000] if mi else b[:500]), no_failing_input=True, tag="corr")
+    k = min(4, len(cases) - 1)
+    chk.sample({"stream": "csv-cells", "statement": cases[k]["text"].decode("utf-8"), "config": docs_yaml([cases[k]["doc"]]), "impl": impl[k][:1200],
+                "model": model.get(k, "")[:600]})
+
+
+# ------------------------------------------------------------------------------------------------
 # F15 witnesses through the real CSV importer
 
 F15_CONFIG = {"path": "stmt", "encoding": "UTF-8", "account": "Assets:Bank", "account_type": "asset", "commodity": "CHF",
@@ -1212,8 +1586,13 @@ def run(chk):
                 "statements of 1-6 records (payees with digits / commas / country codes / `'` / Air- text / currency-like endings, `'` grouping "
                 "in three styles, ` -` credits, foreign currency with exchange line and fee / credit of fee, same-currency fee, air-tag "
                 "lines, dates across years and the 69/70 window, three configurations of rewrite rules incl. invalid ones, with / without "
-                "operator), 40 % of them damaged by one or two of 15 mutations")
-    chk.assumptions = ["the read-back (print then parse) is checked by the oracle on the real printer and parser, not proved",
+                "operator), 40 % of them damaged by one or two of 15 mutations; csv-cells stream: CSV statements of 1-6 records whose number cells "
+                "(amount or credit/debit, balance, charge, rate, secondary amount) are written with currency signs / commodity codes before or after "
+                "the number, thousands separators, blanks and tabs, 0-3 minus signs (leading, on the number, by a negating template), 8 % with one "
+                "cell that writes no number (16 shapes incl. 97-bit and 29-place numbers); index / label / template positions, 5 delimiters, "
+                "0-2 skipped head lines, both account types, row orders and value layouts, precision tables, conversions in three modes")
+    chk.assumptions = ["the read-back (print then parse) is proved over the printer / parser models of C05 and checked by the oracle on the real printer and parser",
+                       "CSV: the csv crate (cells), chrono (dates) and the regex engine are outside the model; number cells and templates are decoded by the model from their text",
                        "csv / quick-xml / regex / chrono decoding happen before the model (decoded record = model input); for Viseca the model "
                        "starts at the lines of the file: BufRead::read_line (cut after LF, per-line UTF-8 check), the regex crate's leftmost-first "
                        "semantics on the four fixed patterns, chrono's %d.%m.%y and rust_decimal's from_str are transliterated by hand and "
@@ -1226,6 +1605,7 @@ def run(chk):
     run_txn_stream(chk, 1600 if quick else 40000, f15)
     run_import_stream(chk, 500 if quick else 8000, f15)
     run_viseca_text_stream(chk, 600 if quick else 12000)
+    run_csv_cells_stream(chk, 400 if quick else 10000)
     # F15: the recorded witnesses on the real CSV importer
     res = replay_f15(chk)
     known = [f for f in chk.known if f["id"] == "F15"]
